@@ -181,6 +181,10 @@ theorem step_eff {c c' : St} {e : Ev} (hI : Mpsc.Inv .mpsc c.m) (hs : step c e =
         split at hm <;> simp at hm
         exact .frame (by rw [← hm]) (by rw [← hm]) (by rw [← hm]; simp) (by rw [← hm]; simp)
           (by rw [← hm]) (Or.inr (by rw [← hm]; simp)) hhist hnpop hstub (Or.inl rfl)
+      next =>
+        split at hm <;> simp at hm
+        exact .frame (by rw [← hm]) (by rw [← hm]) (by rw [← hm]; simp) (by rw [← hm]; simp)
+          (by rw [← hm]) (Or.inr (by rw [← hm]; simp)) hhist hnpop hstub (Or.inl rfl)
       next => simp at hm
     case rdNext t n x =>
       split at hm
@@ -189,6 +193,15 @@ theorem step_eff {c c' : St} {e : Ev} (hI : Mpsc.Inv .mpsc c.m) (hs : step c e =
         rename_i hc
         obtain ⟨_, rfl, rfl⟩ := hc
         have hh := hI.cGotHead _ hcp
+        exact .frame (by rw [← hm]) (by rw [← hm]) (by rw [← hm]; simp) (by rw [← hm]; simp)
+          (by rw [← hm]) (Or.inr (by rw [← hm]; simp)) hhist hnpop hstub
+          (Or.inr ⟨t, n, _, rfl, by rw [hh]⟩)
+      next h0 hcp =>
+        -- the same read, performed by `mpsc_fifo_peek`
+        split at hm <;> simp at hm
+        rename_i hc
+        obtain ⟨_, rfl, rfl⟩ := hc
+        have hh := hI.cPkGotHead _ hcp
         exact .frame (by rw [← hm]) (by rw [← hm]) (by rw [← hm]; simp) (by rw [← hm]; simp)
           (by rw [← hm]) (Or.inr (by rw [← hm]; simp)) hhist hnpop hstub
           (Or.inr ⟨t, n, _, rfl, by rw [hh]⟩)
@@ -228,6 +241,28 @@ theorem step_eff {c c' : St} {e : Ev} (hI : Mpsc.Inv .mpsc c.m) (hs : step c e =
           (by rw [← hm]) (Or.inr (by rw [← hm]; simp)) hhist hnpop hstub (Or.inl rfl)
       next => simp at hm
     case retPop t v =>
+      split at hm
+      next =>
+        split at hm <;> simp at hm
+        exact .frame (by rw [← hm]) (by rw [← hm]) (by rw [← hm]; simp) (by rw [← hm]; simp)
+          (by rw [← hm]) (Or.inr (by rw [← hm]; simp)) hhist hnpop hstub (Or.inl rfl)
+      next =>
+        split at hm <;> simp at hm
+        exact .frame (by rw [← hm]) (by rw [← hm]) (by rw [← hm]; simp) (by rw [← hm]; simp)
+          (by rw [← hm]) (Or.inr (by rw [← hm]; simp)) hhist hnpop hstub (Or.inl rfl)
+      next => simp at hm
+    case callPeek t =>
+      split at hm <;> simp at hm
+      exact .frame (by rw [← hm]) (by rw [← hm]) (by rw [← hm]; simp) (by rw [← hm]; simp)
+        (by rw [← hm]) (Or.inr (by rw [← hm]; simp)) hhist hnpop hstub (Or.inl rfl)
+    case rdDataPeek t n d =>
+      split at hm
+      next =>
+        split at hm <;> simp at hm
+        exact .frame (by rw [← hm]) (by rw [← hm]) (by rw [← hm]; simp) (by rw [← hm]; simp)
+          (by rw [← hm]) (Or.inr (by rw [← hm]; simp)) hhist hnpop hstub (Or.inl rfl)
+      next => simp at hm
+    case retPeek t v =>
       split at hm
       next =>
         split at hm <;> simp at hm
